@@ -183,6 +183,18 @@ func (w *world) closeReopen() error {
 	return err
 }
 
+// shutdownReopen: the order of a real shutdown: the server context is cancelled first, then
+// Storage.Close() runs (it must still flush what is buffered), then a new process opens the directory.
+func (w *world) shutdownReopen() error {
+	if w.backend != "rs" {
+		return w.st.Close()
+	}
+	w.cancel()
+	err := w.st.Close()
+	w.openRS()
+	return err
+}
+
 // crashReopen: the process stops: the unflushed batch is lost; a new process
 // opens the same directory.
 func (w *world) crashReopen() {
